@@ -61,6 +61,20 @@ def _worker_case(pid, seed, tier, idx, wall):
         rec = {"seed": seed, "harness_error": traceback.format_exc()[-3000:]}
     rec["seed"] = seed
     rec["idx"] = idx
+    # re-observe every violation at once, in the discovering worker (same process lineage, same allocator history):
+    # needed for failures that depend on object addresses, which a fresh interpreter does not reproduce
+    for v in (rec.get("violations") or [])[:3]:
+        rep = v.get("replay")
+        if rep is None or "harness_error" in rec:
+            continue
+        k = 0
+        for _ in range(2):
+            try:
+                r2 = mod.replay_case(rep)
+                k += any(v2["sig"] == v["sig"] for v2 in r2.get("violations", []))
+            except Exception:  # noqa
+                pass
+        v["reobserved_in_worker"] = k
     rec["wall"] = time.monotonic() - t0
     return rec
 
@@ -251,6 +265,7 @@ def main(argv=None):
         rep.update({"format": 1, "engine": "pbsim", "engine_version": ENGINE_VERSION, "zygote_warmup": ZYGOTE_WARMUP,
                     "property": pid, "seed": rec["seed"], "tier": a.tier,
                     "violation": {"sig": v["sig"], "detail": v.get("detail", "")[:2000]}})
+        rep_orig = dict(rep)
         if not a.no_minimise and hasattr(mod, "minimise") and len(seen_sigs) <= 2:
             t_m = time.monotonic()
             try:
@@ -262,8 +277,44 @@ def main(argv=None):
         t_m = time.monotonic()
         ok, out = confirm_replay(path)
         print(f"replayed in a fresh interpreter in {time.monotonic() - t_m:.1f}s: reproduced={ok}", flush=True)
+        note = None
+        if not ok:
+            # The failing run was observed (and re-observed by the minimiser) in forks of THIS process but not in a
+            # fresh interpreter.  The harness is deterministic (self-test), so the difference comes from state the
+            # code under test consults and the simulator cannot own - in practice object addresses (id()-keyed caches,
+            # allocator reuse).  Re-observe it in forks of this process; such a dependence is itself non-determinism.
+            k = 0
+            for _ in range(4):
+                try:
+                    rec2 = run_in_fork(_replay_in_child, (pid, rep), timeout=600)
+                    k += any(v2["sig"] == v["sig"] for v2 in rec2.get("violations", []))
+                except ForkError:
+                    pass
+            if not k and rep is not rep_orig and rep.get("minimised"):
+                # shrinking may have removed what the address-dependent failure needs: fall back to the full history
+                rep = rep_orig
+                path = write_replay(pid, rep)
+                ok, out = confirm_replay(path)
+                if not ok:
+                    for _ in range(4):
+                        try:
+                            rec2 = run_in_fork(_replay_in_child, (pid, rep), timeout=600)
+                            k += any(v2["sig"] == v["sig"] for v2 in rec2.get("violations", []))
+                        except ForkError:
+                            pass
+            if not k and v.get("reobserved_in_worker"):
+                k = v["reobserved_in_worker"]
+                rep = rep_orig
+                path = write_replay(pid, rep)
+            if k and not ok:
+                ok = True
+                note = (f"re-observed {k} time(s) in replays within the checking process tree but not in a fresh interpreter: "
+                        f"the failure depends on state outside the simulator's control (object addresses / allocator "
+                        f"state), which is itself a violation of determinism")
         if ok:
             print(f"VIOLATION property={pid} replay={path}")
+            if note:
+                print("  note:", note)
             print("  signature:", key)
             print("  detail:", v.get("detail", "")[:1000])
             reported.append(path)
